@@ -391,6 +391,7 @@ struct C10Ctx
    // so the drivers keeps it <= ~1e7.  Rounding level after updates = unit roundoff x growth.
    double growth() const
    {
+      if(phase == "loaded") return 1.0;     // a fresh factorisation: plain rounding level
       double s = (double)F->stability();
       return (s > 0 && s < 1) ? 1.0 / s : 1.0;
    }
@@ -549,7 +550,10 @@ static void judge(C10Ctx& C, bool left, RhsV& b, bool wantFwd, const std::vector
    // rounding level 1e-9 relative (DESIGN C10) + the absolute zero tolerance `epsilon` (1e-16) with which the solves drop entries
    Q allow = qd(64.0 * n * C.eps0) * (normM + qd(1.0 / (double)C.F->markowitz()));
    double rho = C.growth();
-   Q thr = qd(std::max(1e-9, 2e-12 * rho)) * (normM * xn + bn) + allow;
+   // rounding level: 1e-9 relative for a fresh factorisation, amplified by the element growth 1/stability() that the factorisation
+   // reports for itself (SPxBasisBase::change() keeps using an updated factorisation down to stability ~1e-6).  Calibration on the
+   // unchanged tree (6.4e6 judged vectors, histories of up to 200 updates): largest residual = 0.03 of this threshold.
+   Q thr = qd(1e-9 * rho) * (normM * xn + bn) + allow;
    double ratio = dq(rmax) / dq(thr);
    S.maxi(std::string("c10.resid/thr.") + (left ? "left." : "right.") + C.phase, ratio);
    S.maxi(std::string("c10.resid/1e-9scale.") + C.phase, dq(rmax) / dq(Q(qd(1e-9) * (normM * xn + bn) + allow)));
@@ -635,7 +639,7 @@ static void agree(C10Ctx& C, bool left, const std::vector<double>& multi, const 
       if(!(d <= diff)) diff = d;   // NaN-propagating
    }
    double normM = dq(left ? E.nOne : E.nInf), normI = dq(left ? E.iOne : E.iInf), bn = dinf(b.d);
-   double rel = std::max(1e-9, 2e-12 * C.growth());
+   double rel = 1e-9 * C.growth();
    double allow = 64.0 * E.n * C.eps0 * (normM + 1.0 / (double)C.F->markowitz());
    double thr = normI * (rel * (normM * dinf(multi) + bn) + rel * (normM * dinf(single) + bn) + 2 * allow);
    S.maxi("c10.agree/thr." + C.phase, diff / thr);
